@@ -274,3 +274,24 @@ pub mod v2 {
         }
     }
 }
+
+/// a single-variant unit enum WITHOUT a `repr`: zero-sized in memory (rustc needs no tag for it), one tag byte on
+/// the wire - `Vec<U0>` is refused by the zero-size guard although its elements occupy the wire
+#[derive(BorshSerialize, BorshDeserialize, BorshSchema, Clone, Copy, Debug, PartialEq, Eq, PartialOrd, Ord, Hash)]
+pub enum U0 {
+    A,
+}
+impl Model for U0 {
+    fn describe() -> String {
+        "(sum (enum U0 (A) (0)) (prod (variant () ())))".into()
+    }
+    fn from_val(v: &Val) -> Option<Self> {
+        match v {
+            Val::V(0, p) if list(p, 0).is_some() => Some(U0::A),
+            _ => None,
+        }
+    }
+    fn to_val(&self) -> Val {
+        Val::V(0, Box::new(l(vec![])))
+    }
+}
